@@ -290,7 +290,11 @@ fn parse_f(s: &str) -> f32 {
 
 fn replay_file(txt: &str) -> Result<(), String> {
     // the driver stores the FAIL json under "input" (possibly as an escaped string)
-    let txt = txt.replace("\\\"", "\"");
+    // the driver stores the compact FAIL json as an escaped string under "input_raw"
+    let txt = match txt.find("\"input_raw\":") {
+        Some(i) => txt[i + 12..].trim().trim_start_matches('"').replace("\\\"", "\""),
+        None => txt.replace("\\\"", "\""),
+    };
     let unit = field(&txt, "unit").ok_or("no unit in replay file (no-failing-input-found?)")?.trim_matches('"').to_string();
     match unit.as_str() {
         "scan_next" | "scan_max" => {
